@@ -30,4 +30,24 @@ CLAIMS["C10"] = {
     "note": _COMMON_NOTE + "H-W3 validated by differential execution.",
     "technique": "Coq proof over executable model + exhaustive settings grid + differential oracle",
 }
+CLAIMS["C12"] = {
+    "text": "Proof (Coq): on the byte-level model of multiline_strings.rs — whenever a literal is rewritten its value (interior lines relative to the closing quotes' indentation, trailing blanks included) is unchanged, for all indentation strings of spaces/tabs, both newlines, all quote counts and blank kinds (C12_value_preserved); the result is re-indented exactly and all terminators are the configured newline (C12_reindented); a literal is rewritten iff it is eligible and not already in target form (C12_rewritten_iff_eligible, C12_eligible_implies_rewritten); idempotent; non-blank bytes kept. The model is diffed against the real re-indentation on every generated literal; the oracle compares each real literal's value before/after with the Coq-defined ml_value and checks byte identity for ineligible, ignored or disabled literals.",
+    "note": _COMMON_NOTE + "Assumed and monitored: the literal token's final indentation is the one used for re-indentation (H-W5); a multi-line literal starts its line (plan_ok).",
+    "technique": "Coq proof over executable model + extracted-model correspondence check",
+}
+CLAIMS["C15"] = {
+    "text": "Proof (Coq): on the model of process_cursors / relocate_cursors (Z arithmetic, explicit u16/u32 narrowing) — every relocated cursor lies within the output, unconditionally (C15_in_bounds, C15_in_bounds_all); a cursor inside or at the end of an unchanged single-line or (< 65536 bytes) multi-line token keeps its offset in that token (C15_same_offset, C15_same_offset_multiline); cursors beyond the input map to the end of the output (C15_past_end); no usize subtraction can underflow; boundary cursors cannot slice inside a character; refuted: u16 narrowing above 65535 (F19). The model is diffed against the real cursors for every character boundary of every case (about 3*10^5 cursors per quick run); the oracle states bounds, character boundary, same offset (by independent token alignment on the real output) and past-end directly; the harness checks that the text does not depend on the cursors.",
+    "note": _COMMON_NOTE + "Excluded classes: safety-net newline before the token (F10), text-changed tokens with non-ASCII text (F9), F19.",
+    "technique": "Coq proof over executable model + extracted-model correspondence check",
+}
+CLAIMS["C14"] = {
+    "text": "Proof (Coq), partial: the conditional-directive pass generator is fully modelled and proved — every pass is a strictly increasing list of valid non-directive token indices, the passes cover every non-directive token, and without conditional directives there is exactly one identity pass (C14_pass_sorted, C14_passes_cover, C14_single_identity_pass); the model is diffed against the real passes (hook) on every case. The line-level clauses (lines non-empty, strictly increasing, covering every token, exactly once without directives; parent precedes and contains the parent token; one Eof line) are acceptance predicates defined in Coq and evaluated by extracted code on the real parse result of every case — the grammar and consolidate_pass_lines are an oracle here, not a model.",
+    "note": _COMMON_NOTE + "Hook: verif_directive_passes. Grammar = oracle (H-P3).",
+    "technique": "Coq proof (directive passes) + extracted acceptance predicates on the real parser output",
+}
+CLAIMS["C04"] = {
+    "text": "Proof (Coq), partial by nature: what a theorem can carry is proved — the directive-pass generator is total and the number of passes is at most 2d+1 for d conditional directives (no exponential blow-up, C04_passes_linear, C04_pass_progress); cursor relocation has no reachable underflow and boundary cursors cannot panic in process_cursors. Termination and stack depth of the real grammar recursion and of the wrapper's search are runtime behaviour: decided by a watchdog run over exhaustive token sequences up to length 2 (3 on a sub-alphabet), random soup, mutated seeds with cursor lists, directive-heavy inputs, nesting depth up to 1000, and a directive scaling series, on a build with overflow checks and debug assertions (and on the plain release build in the thorough tier).",
+    "note": _COMMON_NOTE + "Runtime termination is sampled, not proved; F11 (extreme nesting depth) is a listed finding.",
+    "technique": "Coq proof (pass bound, no-underflow) + watchdog exploration",
+}
 NOT_CLAIMED = {}
